@@ -244,6 +244,11 @@ def cases(tier, rng):
             for _ in range(12 if not thorough else 40):
                 sc = ''.join(rng.choice('fb') for _ in range(rng.randint(4, 10)))
                 yield case_line('ws.iter', s, start, sc.encode())
+    for s in S:
+        for start in W:
+            for k in (0, 1, 2, 3, 6, 7, 9):
+                yield case_line('ws.adapt', s, start, k)
+    yield case_line('ws.adapt', 127, 0, 10)
     yield case_line('ws.iter', 127, 0, b'fxb')
     yield case_line('ws.iter', 128, 0, b'f')
     yield case_line('ws.iter', 1, 7, b'f')
